@@ -29,21 +29,30 @@ def _merge_job(args):
     repo, cname = args[:2]
     envelope_only = len(args) > 2 and args[2]
     t0 = time.time()
+    mf = None
+
+    def partial(err):
+        # definite findings made before the analysis broke down are kept (they are facts about recognised constructs)
+        return {'class': cname, 'ok': False, 'error': err, 'partial': True,
+                'findings': [finding_dict(f) for f in mf.findings.values()] if mf is not None else [],
+                'sites': {k: sorted(v) for k, v in mf.sites.items()} if mf is not None else {}, 'outcomes': [], 'notes': {},
+                'stats': {}, 'functions': [], 'summaries': {}, 'guard_tags': []}
     try:
         from .rules_merge import MergeFlow
         prog = program(repo)
-        mf = MergeFlow(prog, cname, envelope_only=envelope_only).run()
+        mf = MergeFlow(prog, cname, envelope_only=envelope_only)
+        mf.run()
         return {'class': cname, 'ok': True, 'findings': [finding_dict(f) for f in mf.findings.values()],
                 'sites': {k: sorted(v) for k, v in mf.sites.items()}, 'outcomes': mf.outcomes,
                 'notes': mf.notes, 'stats': mf.stats, 'functions': sorted(mf.functions_entered),
                 'summaries': {q: s.as_dict() for q, s in mf.summaries.items()}, 'wall': time.time() - t0,
                 'guard_tags': sorted(mf.guard_tags)}
     except AnalysisError as e:
-        return {'class': cname, 'ok': False, 'error': f'{cname}: {e}'}
+        return partial(f'{cname}: {e}')
     except RecursionError:
-        return {'class': cname, 'ok': False, 'error': f'{cname}: analyser recursion limit'}
+        return partial(f'{cname}: analyser recursion limit')
     except Exception as e:  # internal error of the checker: analysis-broken, never a violation
-        return {'class': cname, 'ok': False, 'error': f'{cname}: internal error {type(e).__name__}: {e}\n' + traceback.format_exc()[-1500:]}
+        return partial(f'{cname}: internal error {type(e).__name__}: {e}\n' + traceback.format_exc()[-1500:])
 
 
 def _null_job(args):
